@@ -2,7 +2,7 @@
    Only statements, each closed by `exact <lemma>`, its assumptions printed, and Examples
    showing that the hypotheses are met by non-trivial values. *)
 From Pybtex Require Import Base.Prelude Base.PyChar Base.PyStr Model.RtTypes Model.Backends
-  Proofs.Backends Proofs.BackendsMd Proofs.BackendsHtml Proofs.BackendsLatex Proofs.BackendsDepth Proofs.BackendsTotal Proofs.BackendsHtmlWf Proofs.BackendsMdTree Proofs.BackendsEx.
+  Proofs.Backends Proofs.BackendsMd Proofs.BackendsHtml Proofs.BackendsLatex Proofs.BackendsDepth Proofs.BackendsTotal Proofs.BackendsHtmlWf Proofs.BackendsMdTree Proofs.BackendsDoc Proofs.BackendsCodec Proofs.BackendsEx.
 Local Open Scope N_scope.
 
 (* ---- plain text: the output is the text with symbols replaced by the back end's plain
@@ -52,12 +52,20 @@ Proof. exact html_chardata_holds. Qed.
 Print Assumptions html_chardata.
 
 (* the HTML output is well-formed: every element opened is closed, innermost first, with the same
-   name; character data contains no bare < > or &; entities are terminated.  wf_names: tag names
-   are alphanumeric names, URLs contain no angle bracket (the code inserts both unescaped). *)
+   name; character data contains no bare < > or &; entities are terminated; attribute values are
+   quoted and contain no < or &.  wf_names: tag names are alphanumeric names, URLs are ordinary
+   (no double quote, no <, no &: the code inserts URLs unescaped). *)
 Theorem html_wellformed : forall enc T, html_symbols_wf T = true ->
   forall t out, wf_names t = true -> render enc T BHtml t = Ok out -> wellformed out.
 Proof. exact html_wellformed_holds. Qed.
 Print Assumptions html_wellformed.
+
+(* ... and that restriction on URLs is exactly what is needed (it is the property's own: "links with
+   ordinary URLs"): each of the three characters, alone as a URL, breaks well-formedness *)
+Theorem html_url_refuted : forall enc T c, In c [c_quote; c_lt; c_amp] ->
+  exists out, render enc T BHtml (RHRef [c] false [RStr [120]]) = Ok out /\ ~ wellformed out.
+Proof. exact html_url_refuted_holds. Qed.
+Print Assumptions html_url_refuted.
 
 (* ---- LaTeX: if the encoder keeps the brace skeleton of every string (latexcodec: measured and
    checked per run), every string and URL of the tree is brace-balanced and the tables are sane,
@@ -138,6 +146,76 @@ Theorem from_latex_carries_depths : forall v t, parse_latex v = Ok t -> sp t = t
 Proof. exact parse_latex_spec. Qed.
 Print Assumptions from_latex_carries_depths.
 
+(* the same round trip under hypotheses about the codec instead of the identity codec: on a value
+   alphabet `alpha` the encoder is a homomorphism and is undone by the decoder, and the decoder leaves
+   the braces that follow encoded text in place (so neither moves a character across a brace).  Then Text.from_latex(v).render(latex) decodes to
+   the plain linearisation of the tree, and every character of the decoded value keeps its depth.
+   The hypotheses are sampled against latexcodec on every run (extra check codec_hypotheses_sweep). *)
+Theorem latex_depth_roundtrip_codec : forall (enc dec : str -> str) (alpha : char -> bool) T,
+  enc [] = [] ->
+  (forall a b, forallb alpha a = true -> forallb alpha b = true -> enc (a ++ b) = enc a ++ enc b) ->
+  (forall s, forallb alpha s = true -> dec (enc s) = s) ->
+  (forall a b r, forallb alpha a = true -> is_brace b = true -> dec (enc a ++ b :: r) = dec (enc a) ++ b :: dec r) ->
+  forall v, balanced (dec v) -> (forall c, In c (dec v) -> alpha c = true \/ is_brace c = true) ->
+  exists t out, from_latex dec v = Ok t /\ render enc T BLatex t = Ok out /\
+    dec out = lin (fun s => s) t /\ depth_profile (dec out) = depth_profile (dec v).
+Proof. exact latex_depth_roundtrip_codec_holds. Qed.
+Print Assumptions latex_depth_roundtrip_codec.
+
+(* ---- whole documents (BaseBackend.write_to_stream) ----
+   every back end: the document is the prologue, then one write_entry per entry, in order, around
+   the rendering of that entry's text, then the epilogue *)
+Theorem document_structure : forall enc T b php encoding preamble es out,
+  write_to_stream enc T b php encoding preamble es = Ok out ->
+  exists p texts, write_prologue b encoding preamble es = Ok p /\ rendered enc T b es texts /\
+    out = p ++ entries_text b php es texts ++ write_epilogue b.
+Proof. exact write_to_stream_spec. Qed.
+Print Assumptions document_structure.
+
+(* Markdown and plain text: nothing but the entries, in order *)
+Theorem md_plain_document : forall enc T b php encoding preamble es out, b = BMarkdown \/ b = BPlain ->
+  write_to_stream enc T b php encoding preamble es = Ok out ->
+  exists texts, rendered enc T b es texts /\ out = entries_text b php es texts.
+Proof. exact md_plain_document_holds. Qed.
+Print Assumptions md_plain_document.
+
+(* LaTeX: [preamble] \begin{thebibliography}{L} (\bibitem[label]{key} text)* \end{thebibliography},
+   one \bibitem per entry in order; L is the label of an entry of maximal width, empty for no entry *)
+Theorem latex_document : forall enc T php encoding preamble es out,
+  write_to_stream enc T BLatex php encoding preamble es = Ok out ->
+  exists ll texts, is_longest es ll /\ rendered enc T BLatex es texts /\
+    out = (if is_empty preamble then [] else preamble ++ [c_nl]) ++
+          (lit "\begin{thebibliography}{") ++ ll ++ [c_rbrace] ++
+          concat (map (fun p => latex_entry (e_key (fst p)) (e_label (fst p)) (snd p)) (combine es texts)) ++
+          [c_nl; c_nl] ++ (lit "\end{thebibliography}") ++ [c_nl].
+Proof. exact latex_document_holds. Qed.
+Print Assumptions latex_document.
+
+Theorem latex_document_balanced : forall enc T php encoding preamble es out,
+  (forall s, skeleton (enc s) = skeleton s) -> latex_tables_ok T = true ->
+  balanced preamble -> forallb entry_balanced es = true ->
+  write_to_stream enc T BLatex php encoding preamble es = Ok out -> balanced out.
+Proof. exact latex_document_balanced_holds. Qed.
+Print Assumptions latex_document_balanced.
+
+(* every list of entries whose texts render is written -- the empty bibliography included (the longest
+   label of no entries is the empty string: /repo fix 14eda69) *)
+Theorem latex_document_total : forall enc T php encoding preamble es texts,
+  rendered enc T BLatex es texts -> exists out, write_to_stream enc T BLatex php encoding preamble es = Ok out.
+Proof. exact latex_total. Qed.
+Print Assumptions latex_document_total.
+
+(* HTML: the document is the fixed prologue (DOCTYPE, <html>, the <head> block, <body>, <dl>), the
+   entries, </dl></body></html>; the entries part is well-formed, so is the document's element
+   skeleton around it, and a reader sees per entry: label, line end, text, line end *)
+Theorem html_document : forall enc T php encoding preamble es out,
+  html_symbols_ok T = true -> html_symbols_wf T = true -> forallb html_entry_ok es = true ->
+  write_to_stream enc T BHtml php encoding preamble es = Ok out ->
+  exists body, out = html_prologue encoding ++ body ++ write_epilogue BHtml /\
+    wellformed body /\ wellformed (html_skeleton body) /\ chardata body = Some (html_entries_atoms T es).
+Proof. exact html_document_holds. Qed.
+Print Assumptions html_document.
+
 (* ---- non-vacuity ---- *)
 
 Example md_table_example : md_table_shape markdown_escapable = true /\ same_set markdown_escapable markdown_escapable = true /\
@@ -176,3 +254,27 @@ Example md_tree_example : md_tables_ok ex_md = true /\ md_names_ok ex_tree = tru
     Some (mplain ex_md ex_tree) /\
   md_chardata (lit "a*b") = Some [HC 97; HC 98] /\ md_chardata (lit "a\qb") = None.
 Proof. vm_compute. auto 10. Qed.
+Example document_example :
+  let es := [mkEntry (lit "k1") (lit "A1") 10 (RTag (lit "em") [RStr (lit "x&y")]);
+             mkEntry (lit "k2") (lit "Bb2") 20 (RStr (lit "z"))] in
+  forallb entry_balanced es = true /\ forallb html_entry_ok es = true /\
+  write_to_stream (enc_tab ex_enc) ex_latex BLatex false (lit "UTF-8") [] es =
+    Ok ((lit "\begin{thebibliography}{Bb2}") ++ [c_nl; c_nl] ++ (lit "\bibitem[A1]{k1}") ++ [c_nl] ++ (lit "\emph{x\&y}") ++
+        [c_nl; c_nl] ++ (lit "\bibitem[Bb2]{k2}") ++ [c_nl] ++ (lit "z") ++ [c_nl; c_nl] ++ (lit "\end{thebibliography}") ++ [c_nl]) /\
+  (do out <- write_to_stream (enc_tab ex_enc) ex_html BHtml false (lit "UTF-8") [] es;
+   Ok (skipn (length (html_prologue (lit "UTF-8"))) out)) =
+    Ok ((lit "<dt>A1</dt>") ++ [c_nl] ++ (lit "<dd><em>x&amp;y</em></dd>") ++ [c_nl] ++
+        (lit "<dt>Bb2</dt>") ++ [c_nl] ++ (lit "<dd>z</dd>") ++ [c_nl] ++ (lit "</dl></body></html>") ++ [c_nl]).
+Proof. vm_compute. auto. Qed.
+Example codec_hypotheses_satisfiable :
+  let id := fun s : str => s in let alpha := fun c => negb (is_brace c) in
+  (forall s, skeleton (id s) = skeleton s) /\ id [] = [] /\
+  (forall a b, forallb alpha a = true -> forallb alpha b = true -> id (a ++ b) = id a ++ id b) /\
+  (forall s, forallb alpha s = true -> id (id s) = s) /\
+  (forall a b r, forallb alpha a = true -> is_brace b = true -> id (id a ++ b :: r) = id (id a) ++ b :: id r) /\
+  (forall c, alpha c = true -> is_brace c = false).
+Proof. exact codec_hyps_identity. Qed.
+Example empty_bibliography_example :
+  write_to_stream (enc_tab ex_enc) ex_latex BLatex false (lit "UTF-8") [] [] =
+    Ok ((lit "\begin{thebibliography}{}") ++ [c_nl; c_nl] ++ (lit "\end{thebibliography}") ++ [c_nl]).
+Proof. vm_compute. auto. Qed.
